@@ -194,6 +194,7 @@ structure Cfg where
   canonical : Bool
   pre : List (Bytes × Bytes) := []   -- precompressed: Accept-Encoding name ↦ file suffix (a Go map: keys unique)
   accepted : List Bytes := []        -- what `encode.AcceptedEncodings(r, order)` returned, in order
+  query : Bytes := []                -- request data: `r.URL.RawQuery` (kept here so that `serve` keeps its signature)
 deriving Repr
 
 inductive Outcome where
@@ -202,7 +203,8 @@ inductive Outcome where
   | forbidden                                 -- 403
   | serverError                               -- 500
   | unavailable                               -- 503 (open failed with an unclassified error)
-  | redirect                                  -- 308 canonical-URI redirect
+  | redirect (location : Option Bytes)        -- 308 canonical-URI redirect; the `Location` header value
+                                              -- (`none`: original path not rooted, outside `locationOf`)
   | file (path : Bytes) (id : Nat)            -- bytes of file `id`, opened as `path`
   | listing (path : Bytes) (names : List Bytes)  -- directory listing of `path`
   | sidecar (path : Bytes) (id : Nat) (enc : Bytes)  -- bytes of precompressed file `id`, opened as `path`,
@@ -266,9 +268,83 @@ def listingNamesUrl (c : Cfg) (path : Bytes) (es : List Entry) : List Bytes :=
 def listingNames (c : Cfg) (dirPath : Bytes) (es : List Entry) : List Bytes :=
   (es.filter fun e => !(c.hidden e.name || c.hidden (pathJoin2 dirPath e.name))).map showEntry
 
+/-- `path.Split`: everything up to and including the last slash, and the rest -/
+def pathSplit : Bytes → Bytes × Bytes
+  | [] => ([], [])
+  | c :: cs =>
+    if hasSlash (c :: cs) then (c :: (pathSplit cs).1, (pathSplit cs).2)
+    else ([], c :: cs)
+
+/-! ### the canonical-URI redirect: `redirect` (staticfiles.go) + `http.Redirect` -/
+
+/-- `for strings.HasPrefix(toPath, "//") { toPath = strings.TrimPrefix(toPath, "/") }` -/
+def stripDoubleSlash : Bytes → Bytes
+  | 47 :: 47 :: rest => stripDoubleSlash (47 :: rest)
+  | p => p
+
+/-- `toPath` as handed to `http.Redirect`: leading double slashes collapsed, query re-attached -/
+def redirectTo (to query : Bytes) : Bytes :=
+  stripDoubleSlash to ++ (if query = [] then [] else 63 :: query)
+
+def isCTL (c : UInt8) : Bool := c < 32 || c = 127
+def isHex (c : UInt8) : Bool := (48 ≤ c && c ≤ 57) || (97 ≤ c && c ≤ 102) || (65 ≤ c && c ≤ 70)
+
+/-- `url.unescape` accepts the string: every `%` is followed by two hex digits -/
+def validEsc : Bytes → Bool
+  | [] => true
+  | 37 :: a :: b :: rest => isHex a && isHex b && validEsc rest
+  | 37 :: _ => false
+  | _ :: rest => validEsc rest
+
+/-- `strings.Cut(s, c)`: before, after (after = [] also when `c` does not occur) -/
+def cutAt (c : UInt8) : Bytes → Bytes × Bytes
+  | [] => ([], [])
+  | x :: xs => if x = c then ([], xs) else ((cutAt c xs).1.cons x, (cutAt c xs).2)
+
+/-- `url.Parse(u)` succeeds — for `u` empty or starting with `?` or with a single `/` (then no
+    scheme and no authority can be found): no control byte before `#`, valid escapes in the path
+    and in the fragment -/
+def urlParseOK (u : Bytes) : Bool :=
+  !(cutAt 35 u).1.any isCTL && validEsc (cutAt 63 (cutAt 35 u).1).1 && validEsc (cutAt 35 u).2
+
+/-- `strings.Index(url, "?")` split: the part before, and the rest including the `?` -/
+def splitQuery : Bytes → Bytes × Bytes
+  | [] => ([], [])
+  | x :: xs => if x = 63 then ([], x :: xs) else ((splitQuery xs).1.cons x, (splitQuery xs).2)
+
+/-- "clean up but preserve trailing slash" -/
+def cleanKeepSlash (p : Bytes) : Bytes :=
+  if endsWithSlash p && !endsWithSlash (pathClean p) then pathClean p ++ [slash] else pathClean p
+
+def hexDigitLower (n : UInt8) : UInt8 := if n < 10 then 48 + n else 87 + n
+
+/-- `hexEscapeNonASCII` -/
+def hexEscapeNonASCII : Bytes → Bytes
+  | [] => []
+  | c :: cs => if c ≥ 128 then 37 :: hexDigitLower (c / 16) :: hexDigitLower (c % 16) :: hexEscapeNonASCII cs
+               else c :: hexEscapeNonASCII cs
+
+/-- `path.Split(p)`'s directory part -/
+def dirOf (p : Bytes) : Bytes := (pathSplit p).1
+
+/-- the `Location` header `http.Redirect(w, r, url, 308)` sets (`oldpath` = `r.URL.Path`) -/
+def goRedirect (oldpath url : Bytes) : Bytes :=
+  if urlParseOK url then
+    hexEscapeNonASCII
+      (cleanKeepSlash (splitQuery (if url.head? = some slash then url
+                                    else dirOf (if oldpath = [] then [slash] else oldpath) ++ url)).1 ++
+       (splitQuery (if url.head? = some slash then url
+                    else dirOf (if oldpath = [] then [slash] else oldpath) ++ url)).2)
+  else hexEscapeNonASCII url
+
+/-- the `Location` of a canonical redirect to `to`; defined when the original request path is
+    rooted (every origin-form request target is) -/
+def locationOf (c : Cfg) (path orig to : Bytes) : Option Bytes :=
+  if isRooted orig then some (goRedirect path (redirectTo to c.query)) else none
+
 /-- `serveBrowse` -/
 def serveBrowse (c : Cfg) (dirPath : Bytes) (es : List Entry) (path orig : Bytes) : Traced Outcome :=
-  if (path = [] || sameBase orig path) && !endsWithSlash orig then (.redirect, [])
+  if (path = [] || sameBase orig path) && !endsWithSlash orig then (.redirect (locationOf c path orig (orig ++ [slash])), [])
   else (.listing dirPath (listingNames c dirPath es), [dirPath])
 
 /-- `openFile` + `http.ServeContent` on the chosen file -/
@@ -308,8 +384,10 @@ def serveContent (fs : FS) (c : Cfg) (filename : Bytes) : Traced Outcome :=
 /-- hidden check, canonical-URI redirect, open (everything after the directory branch) -/
 def serveFile (fs : FS) (c : Cfg) (filename : Bytes) (implicitIndex : Bool) (path orig : Bytes) : Traced Outcome :=
   if c.hidden filename then (notFoundOut c, [])
-  else if c.canonical && sameBase orig path && implicitIndex && !endsWithSlash orig then (.redirect, [])
-  else if c.canonical && sameBase orig path && !implicitIndex && endsWithSlash orig then (.redirect, [])
+  else if c.canonical && sameBase orig path && implicitIndex && !endsWithSlash orig then
+    (.redirect (locationOf c path orig (orig ++ [slash])), [])
+  else if c.canonical && sameBase orig path && !implicitIndex && endsWithSlash orig then
+    (.redirect (locationOf c path orig orig.dropLast), [])
   else serveContent fs c filename
 
 /-- directory or file? -/
@@ -371,13 +449,6 @@ def candidatePattern (rootC : Bytes) (t : TryFile) (path : Bytes) : Bytes :=
   sanitizedPathJoin rootC (candidateRel t path)
 
 def hasMeta (p : Bytes) : Bool := p.any fun c => c = 42 ∨ c = 63 ∨ c = 91 ∨ c = 92
-
-/-- `path.Split`: everything up to and including the last slash, and the rest -/
-def pathSplit : Bytes → Bytes × Bytes
-  | [] => ([], [])
-  | c :: cs =>
-    if hasSlash (c :: cs) then (c :: (pathSplit cs).1, (pathSplit cs).2)
-    else ([], c :: cs)
 
 def cleanGlobPath (d : Bytes) : Bytes := if d = [] then dotB else d.dropLast
 
